@@ -62,6 +62,18 @@ class GhostFS(ExtObj):
                       z3.Select(self.complete, x) == z3.Select(other.complete, x))
         return Sym(K.Bool, z3.ForAll([x], z3.Or(*excl, body) if excl else body))
 
+    def m_same_outside(self, ex, other, paths):
+        """every path that is not a member of the sequence `paths` has the same state in both file systems"""
+        x = z3.String('fs_x')
+        from . import loops
+        ps = loops.as_seq(ex, paths)
+        if isinstance(ps, list):
+            ps = Sym(K.Seq(K.Path), P.seq_of(ex, [ptext(ex, p_) for p_ in ps], K.Seq(K.Path))) if ps else Sym(K.Seq(K.Path), z3.Empty(z3.SeqSort(z3.StringSort())))
+        body = z3.And(z3.Select(self.kind, x) == z3.Select(other.kind, x),
+                      z3.Select(self.content, x) == z3.Select(other.content, x),
+                      z3.Select(self.complete, x) == z3.Select(other.complete, x))
+        return Sym(K.Bool, z3.ForAll([x], z3.Or(z3.Contains(ps.t, z3.Unit(x)), body)))
+
     def a_snapshots(self, ex):
         return tuple(s for _, s in self.snaps)
 
@@ -381,6 +393,8 @@ def sh_copy(ex, a, b, what='copyfile', dirs_exist_ok=False):
     may_fail(ex, what)
     if not run.decide(z3.Select(g.kind, a.t) != ABSENT, tag='copy_src_exists'):
         raise RaiseEx(ExcVal('FileNotFoundError', origin=what))
+    if what != 'copytree' and run.decide(a.t == b.t, tag='copy_same_file'):
+        raise RaiseEx(ExcVal('SameFileError', origin=what))
     if what == 'copytree' and run.decide(z3.Select(g.kind, b.t) != ABSENT, tag='copytree_dst_exists'):
         if not ex.truth(dirs_exist_ok):
             raise RaiseEx(ExcVal('FileExistsError', origin='copytree'))
